@@ -50,18 +50,17 @@ RECURSIVE ShapesOf(_)
 ShapesOf(n) == IF n = 0 THEN {<<>>} ELSE {Append(sh, r) : sh \in ShapesOf(n - 1), r \in 0 .. MaxRows}
 AllShapes == UNION {ShapesOf(n) : n \in 1 .. MaxPages}
 
-\* automatic paging from the beginning; any page (or none: 0) answers with an error
-AutoScenarios ==
-  UNION {{[pages |-> sh, q |-> q, kind |-> k, fail |-> f, mode |-> "auto", start |-> 0]
-          : q \in Quarters, k \in Kinds, f \in 0 .. Len(sh)} : sh \in AllShapes}
-
-\* caller-supplied page state: token `start` (0 = the empty state: from the beginning)
-ManualScenarios ==
-  UNION {UNION {{[pages |-> sh, q |-> q, kind |-> k, fail |-> f, mode |-> "manual", start |-> st]
-                 : q \in ManualQuarters, k \in Kinds, f \in {0, st + 1}} : st \in 0 .. Len(sh) - 1}
-         : sh \in AllShapes}
-
-Scenarios == AutoScenarios \cup ManualScenarios
+\* A scenario is chosen by quantification (TLC would otherwise build, sort and keep the whole set of
+\* scenario records before doing anything else, in every run that extends this module).
+\*  - automatic paging from the beginning; any page (or none: 0) answers with an error
+\*  - caller-supplied page state: token `start` (0 = the empty state: from the beginning); the one
+\*    page it asks for fails or not
+IsAutoScenario(sc, sh) ==
+  \E q \in Quarters, k \in Kinds, f \in 0 .. Len(sh) :
+     sc = [pages |-> sh, q |-> q, kind |-> k, fail |-> f, mode |-> "auto", start |-> 0]
+IsManualScenario(sc, sh) ==
+  \E q \in ManualQuarters, k \in Kinds, st \in 0 .. Len(sh) - 1 : \E f \in {0, st + 1} :
+     sc = [pages |-> sh, q |-> q, kind |-> k, fail |-> f, mode |-> "manual", start |-> st]
 
 NPages(c) == Len(c.pages)
 NextTok(c, k) == IF k < NPages(c) THEN k ELSE 0      \* paging state returned with page k (0: last page)
@@ -227,7 +226,8 @@ Obs(s) ==
 VARIABLES scen, state
 vars == <<scen, state>>
 
-Init == scen \in Scenarios /\ state = InitState(scen)
+PickScenario == \E sh \in AllShapes : IsAutoScenario(scen, sh) \/ IsManualScenario(scen, sh)
+Init == PickScenario /\ state = InitState(scen)
 
 ConsumeRow == state' \in ConsumeRowF(scen, state) /\ UNCHANGED scen
 PrefetchTrigger == state' \in PrefetchTriggerF(scen, state) /\ UNCHANGED scen
